@@ -35,10 +35,12 @@ T0 = 1_500_000_000  # explicit mtimes are T0 + small offsets: far away from "now
 SPS = [{"a": 0}, {"a": 1}, {"a": 2}, {"a": 3}, {"b": "x"}, {"a": 0, "b": "x"}]
 
 TOP_FILES = ["f1", "f2", "data.txt", "skip.log", "a", "ab", "tags", "CVS", "notes", FN_SP + ".bak",
-             "skipper", "f1", "f2"]
+             "skipper", "f1", "f2",
+             # names that are special to str.format / %-formatting / regular expressions / the shell
+             "d{}.txt", "x{a}.dat", "100%s", "é b", "[b]*"]
 DIRS = ["sub", "d", "sub/deep", "__pycache__", "sub/skipdir", "e"]
 NESTED_FILES = ["sub/x", "sub/skip.log", "sub/deep/y", "d/tags", "d/z", "__pycache__/c.pyc", "sub/skipdir/w",
-                "sub/" + FN_DOC, "e/skip.log", "sub/deep/a"]
+                "sub/" + FN_DOC, "e/skip.log", "sub/deep/a", "sub/{0}", "d/}{"]
 CONTENTS = ["A", "B", "CC", "DD", "AAA", "BBB", ""]
 MTIMES = [T0 - 100, T0, T0 + 100]
 EXCLUDES = [None, None, "skip", r".*\.log", "a", ["skip", "tags"], r"sub", r"x$", ["data.txt"], r"deep", "signac", "s"]
@@ -386,6 +388,13 @@ def real_options(opts):
 
 
 def run_real(case, sroot, droot):
+    """the real call with everything it prints captured (a dry run lists paths on stdout; in parallel mode the
+    pool's threads may still print while an exception unwinds)"""
+    with contextlib.redirect_stdout(io.StringIO()):
+        return _run_real_inner(case, sroot, droot)
+
+
+def _run_real_inner(case, sroot, droot):
     """One call of the real entry point on the projects at sroot / droot.
     Returns (outcome, payload): outcome 'ok' or the exception kind."""
     import filecmp
@@ -974,6 +983,20 @@ def _under_ignored(rel_in_job, compared):
     return False
 
 
+LEGIT_OUTCOMES = ("ok", "FileSyncConflict", "DocumentSyncConflict", "SchemaSyncConflict",
+                  "RuntimeError",   # a left-over document backup '<doc>~' blocks the merge
+                  "TypeError")      # a document key holding a mapping on one side and a non-mapping on the other
+
+
+def undocumented_outcome(o):
+    """A sync either completes or reports one of the conflicts / refusals above; anything else (IndexError,
+    KeyError, ValueError, OSError ... out of the blue) is a failure to synchronise a valid project pair."""
+    if o.kind1 not in LEGIT_OUTCOMES:
+        return [("the sync raised %s (%s): neither a success nor a conflict / refusal that sync reports" % (
+            o.kind1, str(o.payload1)[:120]), None)]
+    return []
+
+
 def oracle_c13(o):
     """postcondition of a successful, real (not dry) sync"""
     case, opts = o.case, o.case["opts"]
@@ -981,6 +1004,7 @@ def oracle_c13(o):
     if strip_times(o.s1) != strip_times(o.s0) or o.s1 != o.s0:
         changed = sorted(k for k in set(o.s0) | set(o.s1) if o.s0.get(k) != o.s1.get(k))
         fails.append(("source project changed by the sync: %s" % changed[:4], None))
+    fails += undocumented_outcome(o)
     if o.kind1 != "ok" or opts["dry_run"]:
         return fails
     project_level = case["entry"] in ("Project.sync", "sync_projects")
@@ -1308,7 +1332,7 @@ def oracle_c14(o):
     fails = []
     if o.s1 != o.s0:
         fails.append(("source project changed by the sync", None))
-    return fails + oracle_files(o) + oracle_docs(o)
+    return fails + undocumented_outcome(o) + oracle_files(o) + oracle_docs(o)
 
 
 # ----------------------------------------------------------------------------
@@ -1339,6 +1363,7 @@ def oracle_c15(o):
     def under_root(p):
         return any(p == r or p.startswith(r + os.sep) for r in roots)
 
+    fails += undocumented_outcome(o)
     if o.s1 != o.s0:
         fails.append(("source project changed by the sync", None))
     if opts["dry_run"]:
